@@ -12,7 +12,7 @@ ID = "C03"
 LEVEL = "exploration"
 DECIDING = ["C03.adjacency", "C03.border_len", "C03.center_distances", "C03.areas"]
 RULE = ("grids (algorithm, N) for ico, cube3D, randomS; quick N in {4..40,42,43,60,92,98,99,100,162,163} + randomS_110/210 (shortest unambiguous arcs) + 6 seed-dependent N per algorithm from 44..300, thorough every N in 4..300 plus "
-        "386,387,642,643; for each grid the four getters are called (adjacency twice, in different orders) and every pair (i,j) is judged. "
+        "386,387,642,643 and randomS_1000/1600/2048, ico_1600, cube3D_1600; for each grid the four getters are called (adjacency twice, in different orders) and every pair (i,j) is judged. "
         "Non-trivial = N>=5 (at least one non-adjacent pair possible); distinct by (algorithm, N)")
 ASSUMPTIONS = ["arcs whose oracle length lies in [1e-10, 1e-5] are ambiguous (not judged, counted); lengths/angles/areas compared at 1e-9 absolute",
                "randomS is one fixed-seed family of point sets, not all point sets"]
@@ -22,7 +22,7 @@ SHARD_TIMEOUT = {"quick": 900, "thorough": 7200}
 
 ALGS = ("ico", "cube3D", "randomS")
 QUICK_N = list(range(4, 41)) + [42, 43, 60, 92, 98, 99, 100, 162, 163]
-THOROUGH_N = list(range(4, 301)) + [386, 387, 642, 643]
+THOROUGH_N = list(range(4, 301)) + [386, 387, 642, 643]     # plus single grids with 1000-2048 points, see shards()
 
 
 def drive(F3, alg, N, order=0):
@@ -97,6 +97,9 @@ def shards(tier, seed):
         load[k] += len(algs) * (N ** 3 + 20000)
     out = [{"jobs": b} for b in buckets if b]
     if tier == "thorough":
+        # a few grids far beyond the sweep (one process each): neighbour searches that prune by distance rank or by a fixed candidate count
+        # first go wrong at sizes like these (a 30-nearest-candidates shortcut is exact for every randomS N below 1535)
+        out += [{"jobs": [[a, N]]} for a, N in (("randomS", 1000), ("randomS", 1600), ("randomS", 2048), ("ico", 1600), ("cube3D", 1600))]
         out.append({"kind": "repo_tests", "modules": ["tests/test_voronoi.py", "tests/test_rotobj.py", "tests/test_utils.py"], "jobs": []})
     return out
 
